@@ -64,3 +64,109 @@ func VerifC06ListObjects() {
 	}
 	verifCover("listed")
 }
+
+// ---- ListObjectVersions: following the markers ----------------------------------------
+
+var verifC06Menu = []string{"a", "a/one", "a/two", "b", "b/one", "c"}
+
+type verifC06Row struct{ key, vid string }
+
+// order of the listing: key ascending, then newest version first ("null" is the oldest)
+func verifC06Before(x, y verifC06Row) bool {
+	if x.key != y.key {
+		return x.key < y.key
+	}
+	xv, yv := x.vid, y.vid
+	if xv == "null" {
+		xv = ""
+	}
+	if yv == "null" {
+		yv = ""
+	}
+	return xv > yv
+}
+
+// VerifC06VersionsPaginate: rows drawn from a menu of keys (a key drawn twice has
+// two versions; the first row may be the null version), every prefix/delimiter/
+// max-keys combination; ListObjectVersions is followed through NextKeyMarker /
+// NextVersionIdMarker until IsTruncated is false. The concatenated pages must be
+// exactly the matching versions, each once, in S3 order, with every common
+// prefix reported once.
+func VerifC06VersionsPaginate() {
+	nrows := verifParam("rows", 3)
+	tx := verifTx()
+	enabled := "Enabled"
+	verifInsertBucket(tx, "bucket", &enabled)
+	rows := make([]verifC06Row, nrows)
+	for i := 0; i < nrows; i++ {
+		rows[i].key = verifC06Menu[verifPick("key", 0, len(verifC06Menu)-1)]
+		rows[i].vid = verifULIDString(i + 1)
+		if i == 0 && verifBool("null-version") {
+			rows[i].vid = "null"
+		}
+		vid := rows[i].vid
+		verifInsertObject(tx, verifObjRow{id: verifULIDString(100 + i), bucket: "bucket", key: rows[i].key, etag: "e", size: 1, versionID: &vid, createdAt: 1600000001 + int64(i), updatedAt: 1600000001 + int64(i)})
+	}
+	prefix := []string{"", "a", "a/", "b"}[verifPick("prefix", 0, 3)]
+	delimiter := []string{"", "/"}[verifPick("delimiter", 0, 1)]
+	maxKeys := verifPick("maxKeys", 1, 2)
+
+	// reference
+	sorted := append([]verifC06Row(nil), rows...)
+	for i := 1; i < len(sorted); i++ {
+		for j := i; j > 0 && verifC06Before(sorted[j], sorted[j-1]); j-- {
+			sorted[j], sorted[j-1] = sorted[j-1], sorted[j]
+		}
+	}
+	var wantVersions []verifC06Row
+	var wantPrefixes []string
+	for _, r := range sorted {
+		if !strings.HasPrefix(r.key, prefix) {
+			continue
+		}
+		rest := r.key[len(prefix):]
+		if i := strings.Index(rest, delimiter); delimiter != "" && i >= 0 {
+			cp := prefix + rest[:i+len(delimiter)]
+			if len(wantPrefixes) == 0 || wantPrefixes[len(wantPrefixes)-1] != cp {
+				wantPrefixes = append(wantPrefixes, cp)
+			}
+			continue
+		}
+		wantVersions = append(wantVersions, r)
+	}
+
+	var gotVersions []verifC06Row
+	var gotPrefixes []string
+	var keyMarker, versionMarker *string
+	done := false
+	for page := 0; page < nrows+2 && !done; page++ {
+		opts := metadatastore.ListObjectVersionsOptions{Prefix: &prefix, Delimiter: &delimiter, KeyMarker: keyMarker, VersionIDMarker: versionMarker, MaxKeys: int32(maxKeys)}
+		res, err := verifStore().ListObjectVersions(verifCtx, tx, metadatastore.MustNewBucketName("bucket"), opts)
+		verifAssert(err == nil, "C06: ListObjectVersions failed")
+		verifAssert(len(res.Versions)+len(res.CommonPrefixes) <= maxKeys, "C06: a ListObjectVersions page holds more than max-keys entries")
+		for _, v := range res.Versions {
+			gotVersions = append(gotVersions, verifC06Row{v.Key.String(), v.VersionID})
+		}
+		gotPrefixes = append(gotPrefixes, res.CommonPrefixes...)
+		if !res.IsTruncated {
+			done = true
+			break
+		}
+		verifAssert(res.NextKeyMarker != nil, "C06: truncated ListObjectVersions page without a next key marker")
+		verifAssert(len(res.Versions)+len(res.CommonPrefixes) > 0, "C06: truncated ListObjectVersions page without entries")
+		keyMarker, versionMarker = res.NextKeyMarker, res.NextVersionIDMarker
+		if page > 0 {
+			verifCover("third-page")
+		}
+	}
+	verifAssert(done, "C06: following the ListObjectVersions markers does not terminate")
+	verifAssert(len(gotVersions) == len(wantVersions), "C06: the ListObjectVersions pages miss, repeat or invent a version")
+	for i := range gotVersions {
+		verifAssert(gotVersions[i] == wantVersions[i], "C06: the ListObjectVersions pages are not the matching versions in S3 order")
+	}
+	verifAssert(len(gotPrefixes) == len(wantPrefixes), "C06: the ListObjectVersions pages miss, repeat or invent a common prefix")
+	for i := range gotPrefixes {
+		verifAssert(gotPrefixes[i] == wantPrefixes[i], "C06: the ListObjectVersions pages report other common prefixes than the keys have")
+	}
+	verifCover("versions-paginated")
+}
